@@ -213,8 +213,15 @@ pub fn render(items: &[Item]) -> Rendered {
                 }
             }
             Item::Plugins { modules, .. } => {
+                // the spelling is a function of the content (list, tuple, bare string, annotated assignment)
                 let q: Vec<String> = modules.iter().map(|m| format!("\"{}\"", m)).collect();
-                w.ln(&format!("pytest_plugins = [{}]", q.join(", ")));
+                let form = modules.iter().map(|m| m.len()).sum::<usize>() % 5;
+                match form {
+                    0 => w.ln(&format!("pytest_plugins = ({},)", q.join(", "))),
+                    1 if modules.len() == 1 => w.ln(&format!("pytest_plugins = {}", q[0])),
+                    2 => w.ln(&format!("pytest_plugins: list[str] = [{}]", q.join(", "))),
+                    _ => w.ln(&format!("pytest_plugins = [{}]", q.join(", "))),
+                }
             }
             Item::Mark { names } => {
                 let mut s = String::from("pytestmark = pytest.mark.usefixtures(");
